@@ -62,7 +62,7 @@ PLANS = {
         "assumptions": ["all Circuit data members are public and compared field by field"],
         "runs": flow("c03.flow", ["general", "manyfixed", "dense", "obstruction"], "asan", 2000, 8000)
                 + flow("c03.flow", ["crowded", "faraway", "big"], "asan", 600, 3000)
-                + [R("h_flow", "asan", "c03.global", 1500, 6000)]
+                + [R("h_flow", "asan", "c03.global", 1500, 6000), R("h_flow", "asan", "c03.nudge", 3000, 12000)]
                 + flow("c03.flow", ["general", "manyfixed", "dense", "obstruction"], "fast", 0, 15000)
                 + [R("h_flow", "fast", "c03.global", 0, 15000)],
     },
@@ -86,7 +86,7 @@ PLANS = {
         "assumptions": ["a rise is attributed to the known finding only if the frozen-orientation wirelength did not rise and a polarised cell with pins changed orientation"],
         "runs": flow("c05", ["general", "nets", "polarity", "dense", "multirow", "rowhigh-any"], "asan", 2000, 8000)
                 + flow("c05", ["general", "nets", "polarity", "dense", "multirow", "rowhigh-any"], "fast", 0, 12000)
-                + [R("h_dp", "asan", "c05.opt", 6000, 30000), R("h_dp", "fast", "c05.opt", 0, 60000), R("h_dp", "asan", "c05.reorder", 12000, 40000), R("h_dp", "fast", "c05.reorder", 0, 100000)]
+                + [R("h_dp", "asan", "c05.opt", 6000, 30000), R("h_dp", "fast", "c05.opt", 0, 60000), R("h_dp", "asan", "c05.reorder", 12000, 40000), R("h_dp", "fast", "c05.reorder", 30000, 200000)]
                 + flow("c05", CROWDED, "asan", 400, 2000) + flow("c05", CROWDED, "fast", 0, 10000)
                 + flow("c05", FARAWAY, "asan", 2000, 8000) + flow("c05", FARAWAY, "fast", 0, 20000)
                 + flow("c05", ["big"], "asan", 1000, 4000),
